@@ -12,8 +12,10 @@ macro_rules! props {
     };
 }
 props! {
+    "C01" => c01,
     "C05" => c05,
     "C06" => c06,
+    "C07" => c07,
     "C08" => c08,
     "C09" => c09,
     "C13" => c13,
